@@ -132,6 +132,7 @@ def blobStep (d : DSt) (toks : List String) : DSt × String :=
     match T.toNat?, parseKeys ks with
     | some T, some ks => doOp d (.pack T ks (ko = "1"))
     | _, _ => bad d
+  | ["nop"] => (d, report d.st [] .ok)     -- a call that raised before doing anything (failed pack)
   | ["packundoing"] =>     -- what _packUndoing would leave on the current state (query only)
     (d, filesStr (packUndoing d.st.files d.st.hist))
   -- Blob objects / savepoints ------------------------------------------------------------
